@@ -5,9 +5,42 @@ from .scenes import scene, prms_variant
 from .util import run_quiet
 
 
+def _layers_vs_groups(chunk, fails, tag=''):
+    data = chunk.data
+    valid = data['height'].notna()
+    pairs = set(zip(data.loc[valid, 'layer_id'].astype(int), data.loc[valid, 'group_id'].astype(int)))
+    lay2grp = {}
+    for l, g in pairs:
+        lay2grp.setdefault(l, set()).add(g)
+    bad = {l: g for l, g in lay2grp.items() if len(g) > 1}
+    if bad:
+        fails.append(f'{tag}layers spanning several groups: {bad}')
+    for _, row in chunk.groups.iterrows():
+        nl = len({l for l, g in pairs if g == int(row['cluster_id'])})
+        kexp = 1 if row['ncomp'] in (-1, 1) else int(row['ncomp'])
+        if nl != kexp:
+            fails.append(f'{tag}group {row["cluster_id"]} with ncomp {row["ncomp"]} yields {nl} layers')
+    present = sorted(set(int(i) for i in data.loc[valid, 'layer_id']))
+    if sorted(int(i) for i in chunk.layers['cluster_id']) != present or chunk.n_layers != len(present):
+        fails.append(f'{tag}layers table / n_layers do not match the per-hit assignment')
+    return pairs
+
+
+def two_decks_one_group(k, seed):
+    """one instrument, two thin decks 150 ft apart seen alternately: one group, split in two layers when MIN_SEP_VALS allows"""
+    import random
+    from .scenes import _df
+    rng = random.Random(seed * 97 + k)
+    rows = [('A', -1185.0 + 15.0 * t, (1000.0 if t % 2 else 1150.0) + rng.choice([-3.0, 0.0, 3.0]), 1) for t in range(80)]
+    return _df(rows), {'k': k, 'seed': seed, 'layout': 'two_decks_one_group', 'ceilos': ['A'], 'rows': len(rows)}
+
+
 def check(k, seed):
     df, desc = scene(k, seed)
     prms = prms_variant(k, seed)
+    if k % 15 == 8:
+        df, desc = two_decks_one_group(k, seed)
+        prms = {'MIN_SEP_VALS': [100, 1000], 'MIN_SEP_LIMS': [10000]}
     if k % 5 == 4:
         prms.setdefault('SLICING_PRMS', {})['dt_scale'] = 1 if k % 10 == 4 else 1000
         if k % 10 == 4 and len(df) > 200:
@@ -59,18 +92,17 @@ def check(k, seed):
         if getattr(chunk, f'n_{which}s') != len(present) or len(tab) != len(present):
             fails.append(f'n_{which}s does not match')
     # each layer inside exactly one group; a group with k components yields k layers
-    pairs = set(zip(data.loc[valid, 'layer_id'].astype(int), data.loc[valid, 'group_id'].astype(int)))
-    lay2grp = {}
-    for l, g in pairs:
-        lay2grp.setdefault(l, set()).add(g)
-    bad = {l: g for l, g in lay2grp.items() if len(g) > 1}
-    if bad:
-        fails.append(f'layers spanning several groups: {bad}')
-    for _, row in chunk.groups.iterrows():
-        nl = len({l for l, g in pairs if g == int(row['cluster_id'])})
-        kexp = 1 if row['ncomp'] in (-1, 1) else int(row['ncomp'])
-        if nl != kexp:
-            fails.append(f'group {row["cluster_id"]} with ncomp {row["ncomp"]} yields {nl} layers')
+    pairs = _layers_vs_groups(chunk, fails)
+    # ... also when the layering is repeated on the same chunk with another setting (the groups table is kept between the passes)
+    try:
+        import warnings as _w
+        with _w.catch_warnings():
+            _w.simplefilter('ignore')
+            chunk.prms['LAYERING_PRMS']['min_okta_to_split'] = 9 if (chunk.groups['ncomp'] > 1).any() else 0
+            chunk.find_layers()
+        _layers_vs_groups(chunk, fails, tag='after a second find_layers() with min_okta_to_split changed: ')
+    except Exception as e:
+        fails.append(f'second find_layers(): {type(e).__name__}: {str(e)[:80]}')
     # groups are unions of slices' hits: every group id is a slice id
     if not set(int(i) for i in data.loc[valid, 'group_id']) <= set(int(i) for i in data.loc[valid, 'slice_id']):
         fails.append('a group id is not the id of a slice')
